@@ -525,6 +525,7 @@ GRAMMAR = grammar()
 MOLECULES = [(3, num, con) for num in ('consecutive', 'gap', 'descending', 'duplicated') for con in ('linear', 'ring', 'crosslink')] + \
             [(4, num, con) for num in ('consecutive', 'gap', 'descending', 'duplicated') for con in ('linear', 'star', 'ring', 'crosslink')] + \
             [(3, 'consecutive', 'linear-gly-bare'), (4, 'gap', 'linear-gly-bare'), (3, 'consecutive', 'linear-first-bare')]
+TRIPLE_MOLECULES = [(3, 'consecutive', 'linear'), (4, 'gap', 'star'), (3, 'duplicated', 'ring')]
 
 
 def sequence_case(item, acc):
@@ -571,8 +572,15 @@ def run(ctx):
         if pair_mols:
             for i, j in itertools.product(range(len(GRAMMAR)), repeat=2):
                 items.append((nres, numbering, connectivity, (i, j)))
+    if not ctx.quick:
+        # thorough only: every ordered triple of links of the grammar, on three molecules of different shape and numbering
+        ctx.bound['link_list_length'] = 3
+        ctx.bound['triple_molecules'] = [list(m) for m in TRIPLE_MOLECULES]
+        for nres, numbering, connectivity in TRIPLE_MOLECULES:
+            for trip in itertools.product(range(len(GRAMMAR)), repeat=3):
+                items.append((nres, numbering, connectivity, trip))
     acc = Acc()
-    for part in common.pmap(work, list(common.chunked(items, max(1, len(items) // 128)))):
+    for part in common.pmap(work, list(common.chunked(items, max(1, len(items) // 256)))):
         acc += part
     idle = [GRAMMAR[i]['label'] for i in range(len(GRAMMAR)) if acc.extra.get('placements_of_link_%d' % i, 0) == 0
             and 'never fits' not in GRAMMAR[i]['label']]
